@@ -184,11 +184,19 @@ func (n *RawNode) FullString() string {
 
 // LastErr returns the last error encountered (if any) for this node.
 func (n *RawNode) LastErr() error {
+	if n.channel == nil {
+		// the node was never connected (not added to a manager, or WithNoConnect)
+		return nil
+	}
 	return n.channel.lastErr()
 }
 
 // Latency returns the latency between the client and this node.
 func (n *RawNode) Latency() time.Duration {
+	if n.channel == nil {
+		// the node was never connected; same value as a channel without measurements
+		return -1 * time.Second
+	}
 	return n.channel.channelLatency()
 }
 
@@ -267,5 +275,5 @@ var Port = func(n1, n2 *RawNode) bool {
 // LastNodeError sorts nodes by their LastErr() status in increasing order. A
 // node with LastErr() != nil is larger than a node with LastErr() == nil.
 var LastNodeError = func(n1, n2 *RawNode) bool {
-	return n1.channel.lastErr() == nil && n2.channel.lastErr() != nil
+	return n1.LastErr() == nil && n2.LastErr() != nil
 }
